@@ -104,7 +104,7 @@ def params_from_cmd(config: Params) -> None:
             # main test restriction part
             tests_str += "%s %s\n" % (key, value)
         elif key.startswith("only_") or key.startswith("no_"):
-            if re.match("(only|no)_nets", key):
+            if re.fullmatch("(only|no)_nets", key):
                 nets_str = (
                     "%s %s\n" % (key.replace("_nets", ""), value) if value else ""
                 )
@@ -119,7 +119,7 @@ def params_from_cmd(config: Params) -> None:
                 )
             else:
                 for vm_name in available_vms:
-                    if re.match(f"(only|no)_{vm_name}", key):
+                    if re.fullmatch(f"(only|no)_{vm_name}", key):
                         # escape defaults for this vm and use the command line
                         use_vms_default[vm_name] = False
                         # main vm restriction part
